@@ -159,7 +159,10 @@ def big_trees(draw, max_feats):
     shape = draw(st.sampled_from(["random", "random", "chain", "star", "caterpillar"]))
     n = draw(st.one_of(st.integers(1, 3), st.integers(1, max_feats), st.integers(1, max_feats)))
     if shape == "random":
-        return {"model": draw(S.model_specs(S.BOOLEAN_ANY, 1, max_feats, with_ctcs=False))}
+        # the definitions do not mention feature types, feature cardinalities, abstract flags or attributes - so
+        # they are drawn: the operations must not let them in
+        return {"model": draw(S.model_specs(draw(st.sampled_from([S.BOOLEAN_ANY, S.ANY, S.UVL])), 1, max_feats, with_ctcs=False,
+                                            allow_wide=False))}
     feats = [build.feat(f"N{i}") for i in range(n)]
     kinds = st.sampled_from([(1, 1), (0, 1)])
     for i in range(1, n):
@@ -284,7 +287,7 @@ SUBS = [
     Sub("shapes", check, enum=enum_shapes, nontrivial=nontrivial, classes=classes, exhaustive=True, min_nontrivial=0.0),
     Sub("random-trees", check, gen=lambda tier: big_trees(200 if tier == "thorough" else 60), nontrivial=nontrivial,
         classes=classes, n={"quick": 400, "thorough": 2000}, essential=["size:>50", "root-only"] , min_nontrivial=0.005),
-    Sub("edit-histories", check, gen=lambda tier: _bool.edit_histories(S.BOOLEAN_ANY, 12), nontrivial=lambda case: True,
+    Sub("edit-histories", check, gen=lambda tier: st.one_of(_bool.edit_histories(S.BOOLEAN_ANY, 12), _bool.edit_histories(S.ANY, 12)), nontrivial=lambda case: True,
         classes=lambda case: {"edit:" + e["label"] for e in case["edits"]}, n={"quick": 150, "thorough": 1500},
         essential=["edit:move", "edit:add-feature", "edit:remove-leaf"]),
     Sub("deep-chains", check, enum=enum_deep, nontrivial=nontrivial, classes=classes, shards={"quick": 6, "thorough": 6}),
